@@ -18,7 +18,7 @@ INFO = {
                "and builds the function through FunctionDefinitions::create on every successful path, and create "
                "rejects too few / too many arguments and is the only caller of a factory; (e) get_processor rejects "
                "output options that do not belong to the style, and the header-less csv error is raised before "
-               "anything is written (C15-ROW instances). Every stage hands start() on at once, so the sink's header-less csv error is raised before any input is read.",
+               "anything is written (C15-ROW instances). Every stage hands start() on at once, so the sink's header-less csv error is raised before any input is read. For each of the registered functions the declared minimum number of arguments is enough for its implementation to produce a value and no index beyond the declared maximum is read; a path expression that stops in the middle of a step after a complete step is rejected.",
     "not_decided": "Completeness of clap's own validation, the wording of messages, and the full grammar of the "
                    "accepted suffixes (--select's `=name`, --sort-by's direction words are validated by value logic "
                    "that unit tests sample).",
@@ -466,6 +466,142 @@ def arity(rep, ctx):
               % sorted(set(ind) - {cr.name}), "")
 
 
+def arity_use(rep, ctx):
+    """The declared minimum is what the implementation needs (a contradiction rule: the declaration says N arguments
+    are enough, the implementation can only ever answer `nothing` when given N)."""
+    lib = ctx.lib
+    r = rep.rule("C18-ARITY-USE", "for every function registered with FunctionDefinitions::new(name, min, max, ..): "
+                 "given exactly `min` arguments (Arguments::apply answers None for every index >= min) its "
+                 "Get::get can still produce a value, and it never reads an index >= max - otherwise the declared "
+                 "arity admits calls the implementation cannot serve and the arity check lets an arity-violating "
+                 "expression through", floor=100,
+                 analysis="A5 partial evaluation of each Impl::get with Arguments::apply(_, k) seeded to None for "
+                          "k >= min")
+    from lib.peval import NONE as _NONE
+    eq_ok = common.derived_eq_ok(lib)
+    for n, b in sorted(lib.bodies.items()):
+        for c in b.calls:
+            if not (c.name or "").endswith("FunctionDefinitions::new") or len(c.args) < 4:
+                continue
+            fname = (c.args[0].get("s") or "?").strip('"')
+            mn, mx = c.args[1].get("int"), c.args[2].get("int")
+            key = "fn[%s]@%s" % (fname, n.rsplit("::", 2)[-2] if n.count("::") >= 2 else n)
+            if mn is None or mx is None:
+                r.bad(key, "min/max are not constants (unrecognised idiom)", c.where())
+                continue
+            impls = [k for k in lib.bodies if k.startswith("<" + n + "::{closure#") and k.endswith(" as selection::Get>::get")]
+            if len(impls) != 1:
+                r.ok(key, "no single Impl::get under the factory (%d): not judged" % len(impls), c.where(), nontrivial=False)
+                continue
+            ib = lib.bodies[impls[0]]
+            idx = set()
+
+            def model(c2, av, envv, pe, mn=mn, idx=idx):
+                if (c2.name or "").endswith("functions_definitions::Arguments>::apply"):
+                    k = av[2] if len(av) > 2 else None
+                    if k is not None and k[0] == "i":
+                        idx.add(k[1])
+                        if k[1] >= mn:
+                            return (True, _NONE)
+                    return (True, None)
+                return None
+            try:
+                res = PE(ib, model, eq_ok=eq_ok, crate=lib, max_states=20000).run()
+            except RuntimeError:
+                r.ok(key, "state budget exceeded: not judged", c.where(), nontrivial=False)
+                continue
+            vals = {v for _, v in res.returns}
+            beyond = sorted(i for i in idx if i >= mx)
+            if vals == {_NONE}:
+                r.bad(key, "declared to take at least %d argument(s), but with exactly %d the implementation can only "
+                      "answer nothing (it needs argument #%s): an under-supplied call passes the arity check"
+                      % (mn, mn, sorted(i for i in idx if i >= mn)), c.where())
+            elif beyond:
+                r.bad(key, "reads argument #%s although at most %d are accepted" % (beyond, mx), c.where())
+            else:
+                r.ok(key, "min=%d max=%d, reads %s" % (mn, mx, sorted(idx)), c.where())
+    return r
+
+
+def extract_truncated(rep, ctx):
+    """A path expression that stops in the middle of a step (`.a.`, `.a#`, `#0.`, `#0#`) is a parse error."""
+    lib = ctx.lib
+    r = rep.rule("C18-TRUNCATED-PATH", "ExtractFromInput::parse: once at least one step (.key or #index) was read, a "
+                 "`.` with no key or a `#` with no digits makes the parser return an error (it does not fall back to "
+                 "the root extractor or to the steps read so far)", floor=4,
+                 analysis="A5 partial evaluation of the parser on scripted token sequences, the step vector modelled "
+                          "as a counter")
+    from lib.peval import NONE as _NONE, some as _some
+    b = lib.bodies.get("extractor::ExtractFromInput::parse")
+    if b is None:
+        r.missing("extractor::ExtractFromInput::parse")
+        return r
+    eq_ok = common.derived_eq_ok(lib)
+    DOT, HASH = 46, 35
+    for first in (DOT, HASH):
+        for second in (DOT, HASH):
+            script = [first, second]
+            st = {"peeks": 0, "unknown": []}
+
+            def cur():
+                return script[min(st["peeks"], len(script)) - 1]
+
+            def model(c, av, envv, pe):
+                nm = c.name or ""
+                if is_reader_peek(c):
+                    st["peeks"] += 1
+                    if st["peeks"] > len(script):
+                        return (True, OK(_NONE))
+                    return (True, OK(_some(("i", script[st["peeks"] - 1]))))
+                if is_reader_next(c):
+                    return (True, None)
+                if nm.endswith("read_extract_key"):
+                    return (True, OK(("s", "k" if st["peeks"] == 1 else "")))
+                if nm.endswith("read_extract_index"):
+                    return (True, OK(_some(("i", 3)) if st["peeks"] == 1 else _NONE))
+                if nm.endswith("String::is_empty") or nm.endswith("str>::is_empty"):
+                    v = pe._deref_all(envv, av[0]) if av else None
+                    if v is not None and v[0] == "s":
+                        return (True, ("b", v[1] == ""))
+                    return (True, None)
+                if nm.startswith("std::vec::Vec::<T>::new") or nm.endswith("Vec::<T>::with_capacity"):
+                    return (True, ("tok", "vec", 0))
+                if nm.endswith("Vec::<T, A>::push") and av and av[0] is not None and av[0][0] == "ref":
+                    v = pe._read(envv, av[0][1], list(av[0][2]))
+                    if v is not None and v[0] == "tok":
+                        pe._write(envv, {"l": av[0][1], "p": [], "ty": ""}, ("tok", "vec", v[2] + 1)) \
+                            if not av[0][2] else None
+                        pe.keep_mut_args = True
+                    return (True, ("adt", 0, ()))
+                if nm.endswith("Vec::<T, A>::is_empty") or nm.endswith("Vec::<T, A>::len"):
+                    v = pe._deref_all(envv, av[0]) if av else None
+                    if v is not None and v[0] == "tok":
+                        return (True, ("b", v[2] == 0) if nm.endswith("is_empty") else ("i", v[2]))
+                    st["unknown"].append(nm)
+                    return (True, None)
+                return None
+            key = "parse[%s%s]" % ({DOT: ".k", HASH: "#3"}[first], {DOT: ".", HASH: "#"}[second])
+            try:
+                res = PE(b, model, eq_ok=eq_ok, crate=lib).run()
+            except RuntimeError as e:
+                r.bad(key, "not evaluated: %s" % e, b.where())
+                continue
+            if res.forks or st["unknown"] or not res.returns:
+                r.bad(key, "the parser's reaction to this token sequence is not determined by the models of "
+                      "peek / read_extract_key / read_extract_index / the step vector (unrecognised idiom)", b.where())
+                continue
+            vals = {v for _, v in res.returns}
+            if all(v is not None and v[0] == "adt" and v[1] == 1 for v in vals):
+                r.ok(key, "rejected", b.where())
+            else:
+                r.bad(key, "a path that ends in an empty step after a complete one is accepted (%s) instead of being "
+                      "reported as an invalid expression" % ("as the root extractor" if any(
+                          v is not None and v[0] == "adt" and v[1] == 0 and v[2] and v[2][0] is not None
+                          and v[2][0][0] == "adt" and v[2][0][1] == 0 for v in vals) else "with the steps read so far"),
+                      b.where())
+    return r
+
+
 # ------------------------------------------------------------------ (e) output options / style
 
 def style_options(rep, lib):
@@ -514,6 +650,8 @@ def run(ctx, rep):
     trailing(rep, lib)
     inspect_before_consume(rep, ctx)
     arity(rep, ctx)
+    arity_use(rep, ctx)
+    extract_truncated(rep, ctx)
     style_options(rep, lib)
     # header-less csv: error before any write (shared with C15)
     PR.text_rows(rep, lib)
